@@ -535,6 +535,13 @@ def run_replay(ctx, j, path):
         ctx.cov.update({"evaluations": 1, "distinct_nontrivial": 1, "rule": "replay of one recorded MT scenario"})
         ctx.sample(s)
         return ctx.finish()
+    if rp["replay"].get("isolated"):
+        r = run_scenarios_isolated([s])[0]
+        judge_long(j, s, r, source="replay")
+        print(json.dumps({k: v for k, v in r.items() if k not in ("recs", "head")})[:1500])
+        ctx.cov.update({"evaluations": 1, "distinct_nontrivial": 1, "rule": "replay of one recorded scenario"})
+        ctx.sample(strip(s))
+        return ctx.finish()
     r = run_scenarios([s])[0]
     fam = s["fam"]
     if fam not in JUDGES:
@@ -1580,6 +1587,78 @@ def family_concat_lz(ctx, j, quick, rnd, pool):
             raise ToolError(f"liblzma rejects the concatenated .lz input of {s['id']}: {r1['ref']['err']}")
     ctx.add("behaviours_replayed", len(multi) + len(single))
     ctx.add("replay_divergences", ndiv)
+    return scns, res
+
+
+# --------------------------------------------------------------------------- long runs of members / streams (C12)
+def run_scenarios_isolated(scns, stack_kb=1024, timeout=300, nproc=6, binary="vh_cont"):
+    """One process per scenario, main-thread stack limited to stack_kb: a reader that recurses once per member /
+    stream dies here instead of silently relying on an 8 MiB default stack. A dead process is data, not a tool
+    error: {"outcome": "abort", "rc": .., "stderr": ..}; a timeout is {"outcome": "timeout"}."""
+    import subprocess
+    exe = os.path.join(core.build_harness(), binary)
+
+    def one(s):
+        try:
+            p = subprocess.run(["prlimit", f"--stack={stack_kb * 1024}", exe], input=json.dumps(s) + "\n", capture_output=True, text=True, timeout=timeout)
+        except subprocess.TimeoutExpired:
+            return {"outcome": "timeout"}
+        lines = [x for x in p.stdout.splitlines() if x.strip()]
+        if p.returncode == 0 and len(lines) == 1:
+            return json.loads(lines[0])
+        return {"outcome": "abort", "rc": p.returncode, "stderr": p.stderr[-400:]}
+    with ThreadPoolExecutor(max_workers=nproc) as ex:
+        return list(ex.map(one, scns))
+
+
+def judge_long(j, s, r1, source="long-runs"):
+    j.nruns += 1
+    a = s["abstract"]
+    who = ("LZIPReaderMT" if s["mt"] else "LZIPReader") if s["fmt"] == "lz" else "XZReader (multi-stream)"
+    base = {"family": "read_long_" + s["fmt"], "mt": s["mt"]}
+    rep = {"scenario": strip(s), "source": source, "isolated": True}
+    if r1["outcome"] in ("build_err", "bad_family"):
+        raise ToolError(f"read scenario {s['id']}: {r1['outcome']}: {r1.get('err')}")
+    j.classes.add(("read_long", s["fmt"], s["mt"], a["units"], r1["outcome"]))
+    if r1["outcome"] in ("abort", "timeout", "panic"):
+        msg = (r1.get("stderr") or r1.get("err") or "").strip().splitlines()
+        j.violation("C12", f"{who} on an input of {a['units']} members / streams: the process ends with {r1['outcome']} ({msg[-1][:160] if msg else ''})",
+                    dict(base, outcome=r1["outcome"]), rep)
+    elif not (r1["outcome"] == "eof" and r1["matched"] == a["parts"]):
+        j.violation("C12", f"{who} on an input of {a['units']} members / streams: {r1['err'] or ('decoded %d bytes, not the concatenation' % r1['out_len'])}",
+                    dict(base, outcome="concat"), rep)
+    elif not r1["ref"]["ok"]:
+        raise ToolError(f"liblzma rejects the long input of {s['id']}: {r1['ref']['err']}")
+
+
+def family_long_runs(ctx, j, quick, rnd):
+    """C12: 'any number of' members / streams. The container models bound the number of units at a handful; this
+    family runs the real readers over inputs with thousands of members / streams (empty ones, tiny ones, with data
+    in front, in the middle and at the end) in one process each under a small stack."""
+    t0 = time.time()
+    scns = []
+    big, mid = (20000, 3000) if quick else (120000, 20000)
+
+    def lz(n, cls="text"):
+        return {"k": "lz", "src": "ours", "opt": {"preset": 0, "dict": 4096}, "n": n, "class": cls, "seed": rnd.getrandbits(32)}
+
+    def xz(n, check="crc32"):
+        return {"k": "xz", "src": "ours", "opt": {"preset": 0, "dict": 4096, "check": check}, "n": n, "class": "text", "seed": rnd.getrandbits(32)}
+    shapes = [("lz", False, [dict(lz(0), rep=big), lz(3000), dict(lz(0), rep=big)], [4096]),
+              ("lz", False, [lz(500), dict(lz(0), rep=big), lz(1)], [1]),
+              ("lz", False, [dict(lz(7), rep=mid), dict(lz(0), rep=mid), lz(100)], [65536]),
+              ("lz", True, [dict(lz(0), rep=mid), lz(3000), dict(lz(0), rep=mid)], [4096]),
+              ("lz", True, [dict(lz(5), rep=mid)], [7, 4096, 3]),
+              ("xz", False, [dict(xz(0), rep=mid), xz(3000), dict(xz(0, "none"), rep=mid)], [4096]),
+              ("xz", False, [xz(100), dict(xz(0), rep=mid), {"k": "zeros", "n": 8}, dict(xz(3), rep=mid)], [1000, 1])]
+    for i, (fmt, mt, parts, reads) in enumerate(shapes):
+        nunits = sum(max(p.get("rep", 1), 1) for p in parts if p["k"] in ("lz", "xz"))
+        scns.append({"id": f"long-{fmt}-{i}", "fam": "read", "fmt": fmt, "mt": mt, "multi": True, "parts": parts, "seed": rnd.getrandbits(32),
+                     "reads": reads, "want_recs": False, "src_chunks": [], "abstract": {"units": nunits, "parts": len([p for p in parts if p["k"] in ("lz", "xz")])}})
+    res = run_scenarios_isolated(scns)
+    for s, r1 in zip(scns, res):
+        judge_long(j, s, r1)
+    log(f"[impl] read/long runs: {len(scns)} inputs of up to {2 * big + 1} members / streams, one process each under a 1 MiB stack, in {time.time()-t0:.1f}s")
     return scns, res
 
 
